@@ -54,6 +54,10 @@ CHECKS = {
             "Decides the structural necessary conditions for every text and sub-selection: no codepoint/byte mix-up and no doubly applied begin offset anywhere in the search / split / trim / regex / segmentation code (this covers trim_text's cursors); FindText on a sub-selection uses the selection's own text as haystack; byte positions found in a lower/upper-cased or replaced copy never reach conversions on the original (one known finding: case-insensitive search); Match::begin / Match::end equal min start / max end for every list of up to three optional capture groups; each segment is cursor..X followed by cursor = X and iteration stops exactly at cursor >= end. Regex semantics and case folding are not decided.",
             "trusts rustc MIR/syn, unit seed tables, the evaluator; matches themselves come from std/regex (trusted)",
             "DESIGN.md section 4 C07, A6, A9", "mir+syn"),
+    "C06": ("proof", "extraction of the candidate-range arms and of the relation from the syntax tree; exhaustive finite evaluation that the chosen ranges contain every related selection (A7); structural rules for the filter, the self-exclusion, de-duplication and sort-before-dedup",
+            "None missing: for every operator value (12 variants x negate x all x limit x whitespace, 49 groups), every reference selection (every reference set of up to two selections in the thorough tier) and every candidate selection of a text of length 4 (6 thorough), if the extracted relation holds then one of the index ranges chosen by init_textseliters contains the candidate's begin (forward) or end (backward) - including selections touching the very end of the text, references in the second half, zero-width selections and negated operators. No extras: every yielded handle is guarded by refset.test with the iterator's own operator. Only Equals returns the reference: both directions carry the unconditional has_handle exclusion. Each once: per-reference iterators are de-duplicated, and every Vec::dedup() in the crate (21 sites) follows a total sort of the same vector.",
+            "trusted: syn, the evaluator, the range model (checked structurally by C06.ITER), the relation model (proved against its definition by C13); result order and the Equals shortcut are not decided",
+            "DESIGN.md section 4 C06, A7", "syn"),
 }
 
 NA = {
